@@ -198,7 +198,7 @@ func explorePairs(p *an.Prog, f *an.Fn) *pairResult {
 						for _, pf := range pairedFields {
 							if fk == pf && rhs != nil {
 								if o, ok := isRestoreSource(p, f, rhs, pf); ok {
-									st.Set("dres:"+pf, o.Name())
+									st.Set("dres:"+pf, an.RoleOf(o))
 								}
 							}
 						}
@@ -248,7 +248,7 @@ func explorePairs(p *an.Prog, f *an.Fn) *pairResult {
 						// the exit of that very activation (it is the operand of a defer statement there); a closure
 						// that escapes (e.g. the content closure) runs later and must save for itself
 						_, isLocal := ownLocal(f, o)
-						if (!isLocal && deferredInParent(f)) || (isLocal && st.Get("saved:"+pf) == o.Name()) {
+						if (!isLocal && deferredInParent(f)) || (isLocal && st.Get("saved:"+pf) == an.RoleOf(o)) {
 							if st.Get("cur:"+pf) != "" {
 								res.plainRestore[pf] = lhs.Pos()
 							}
